@@ -172,4 +172,4 @@ def run_case(c):
 
 if __name__ == "__main__":
     import implutil
-    implutil.run_cases(run_case, per_case_s=60)
+    implutil.run_cases(run_case, per_case_s=300)
